@@ -884,6 +884,15 @@ def c02(tapes, params):
 
     def prober(where):
         """A fresh session registers and reads every tag back; must equal the model."""
+        if sch.chance(1, 4, 'abortconn'):
+            # connections that end before their first byte -- reset while still in the listen backlog
+            for _ in range(1 + sch.draw(3, 'nabort')):
+                z = RefSession(w, 'abort', chunk_mode='whole')
+                z.connect()
+                z.sock.tx.reset()
+                z.sock.close()
+                w.net.fired('RST_BEFORE_ACCEPT')
+            w.sched.sleep(0.2)
         if w.server_thread._sim_state == 'done':
             w.violation('c02-listener-dead', 'the simulator main thread ended %s' % where)
             raise Violation()
